@@ -92,13 +92,21 @@ func catalogue() []catMsg {
 	return out
 }
 
+// raw renders a JSON value; JSON null and an absent member say the same thing in JSON-RPC.
+func raw(r json.RawMessage) string {
+	if len(r) == 0 || string(r) == "null" {
+		return "null"
+	}
+	return string(r)
+}
+
 // describe renders what a message says (kind, id, method, params/result, error) for comparison.
 func describe(m jsonrpc2.Message) string {
 	switch v := m.(type) {
 	case *jsonrpc2.Call:
-		return fmt.Sprintf("call id=%q method=%q params=%s", v.ID(), v.Method(), string(v.Params()))
+		return fmt.Sprintf("call id=%q method=%q params=%s", v.ID(), v.Method(), raw(v.Params()))
 	case *jsonrpc2.Notification:
-		return fmt.Sprintf("notify method=%q params=%s", v.Method(), string(v.Params()))
+		return fmt.Sprintf("notify method=%q params=%s", v.Method(), raw(v.Params()))
 	case *jsonrpc2.Response:
 		e := "<nil>"
 		if v.Err() != nil {
@@ -109,7 +117,7 @@ func describe(m jsonrpc2.Message) string {
 				e = v.Err().Error()
 			}
 		}
-		return fmt.Sprintf("response id=%q result=%s err=%s", v.ID(), string(v.Result()), e)
+		return fmt.Sprintf("response id=%q result=%s err=%s", v.ID(), raw(v.Result()), e)
 	case nil:
 		return "<nil message>"
 	}
@@ -546,6 +554,7 @@ func pipeRun(wire []byte, chunks []int, frameEnds []int, expectMsgs int) (sig, w
 		defer func() {
 			if r := recover(); r != nil {
 				out <- item{pan: fmt.Sprint(r)}
+				pr.Close()
 			}
 		}()
 		st := jsonrpc2.NewStream(struct {
@@ -557,6 +566,7 @@ func pipeRun(wire []byte, chunks []int, frameEnds []int, expectMsgs int) (sig, w
 			msg, total, err := st.Read(context.Background())
 			if err != nil {
 				out <- item{err: err, tot: total}
+				pr.Close() // the writer side must not block on a reader that has given up
 				return
 			}
 			out <- item{desc: describe(msg)}
@@ -745,19 +755,26 @@ func framing(path string, seed int64, splits int) {
 		} else {
 			report(&b, sent, wire, b.Chunks, "pipe", po)
 		}
-		// (d) round trip through the real writer for well-formed sequences
-		if b.Variant == "none" {
+		// (d) round trip: the same message sequence written by the real stream.Write, cut by the same chunk
+		// sizes, read by the real stream.Read
+		{
 			var rt []byte
 			for _, mi := range b.Sent {
 				rt = append(rt, frames[mi-1]...)
 			}
-			ch := append([]int(nil), b.Chunks...)
-			o := readAll(&chunkReader{data: rt, chunks: ch}, len(sent))
+			ch := append(append([]int(nil), b.Chunks...), len(rt), -1)
+			for i, k := range ch[:len(b.Chunks)] {
+				if k < 0 { // EOF only at the very end
+					ch[i] = -k - 1
+				}
+			}
+			gb := behaviour{Sent: b.Sent, Variant: "none", Class: "good", Err: "eof-clean"}
+			ro := readAll(&chunkReader{data: rt, chunks: append([]int(nil), ch...)}, len(sent))
 			roundtrips++
-			if sig, what, _ := judge(&b, sent, o); sig != "" {
+			if sig, what, _ := judge(&gb, sent, ro); sig != "" {
 				fails++
 				vhlib.Fail(strings.Replace(sig, "Framing.", "Framing.RoundTrip.", 1), "written by the real stream.Write, read by the real stream.Read: "+what,
-					framingCase{Sent: sent, Variant: "none", Wire: string(rt), Chunks: b.Chunks, Mode: "roundtrip", Got: o})
+					framingCase{Sent: sent, Variant: "none", Wire: string(rt), Chunks: ch, Mode: "roundtrip", Got: ro})
 			}
 		}
 		if samples < 4 && (b.Class == "bad" || len(b.Sent) > 1) {
